@@ -7,6 +7,8 @@ CONSTANTS
   USER_REMOVES_ENTRIES = FALSE
   USER_RENAMES = FALSE
   RECHECK_ON_RENAME = FALSE
+  ENTRIES_ARE_DIRS = FALSE
+  RECHECK_DIRS = TRUE
   FIX_BYUSER = FALSE
 INVARIANTS FdsMatch ListOK AllGone Released CreateOnce
 CHECK_DEADLOCK FALSE
